@@ -5,7 +5,7 @@ from pyvc.ty import nth_pat
 from contracts.sse_common import *
 import contracts.fpe as FPE
 import contracts.structures_all
-from contracts.bits import BITS, B
+from contracts.bits import BITS, B, bcat
 import z3
 
 S = "schemes/CGKO06/SSE2/"
@@ -60,7 +60,7 @@ axiom("PRP_inverse", [_kb, _R, _n, _v],
            "restated as an inverse function of the specification-level cipher value; not re-derived here")
 toks = specfn("toks", [TBytes, TInt, TInt, TInt, TInt, TInt], IL, doc="[prpv(M(w, 1)), ..., prpv(M(w, k))] with M(w, j) = b2i(w) * 2^L2 + j")
 toks.define = lambda kb, R, n, wv, L2, k: z3.If(k <= 0, z3.Empty(sort(IL)),
-                                                z3.Concat(toks(kb, R, n, wv, L2, k - 1), z3.Unit(prpv(kb, R, n, wv * pow2(L2) + k))))
+                                                z3.Concat(toks(kb, R, n, wv, L2, k - 1), z3.Unit(prpv(kb, R, n, bcat(wv, L2, k)))))
 lemma("toks_len", [_kb, _R, _n, _wv, _L2, _k], Len(toks(_kb, _R, _n, _wv, _L2, _k)) == z3.If(_k <= 0, 0, _k),
       patterns=[toks(_kb, _R, _n, _wv, _L2, _k)], induct=("int", _k), inst=[[_kb, _R, _n, _wv, _L2, _k - 1]], no_auto=True, unfold_only=["toks"])
 KB = "i2b(b2i(K.K1), (self.config.param_k_bits + 7) // 8)"
@@ -112,7 +112,7 @@ lemma("kw_inverse", [_w], Imp(And(Len(_w) >= 1, _w[0] != ZERO8), And(i2b_min(b2i
 lemma("b2i_zeros", [_k], b2i(zeros(_k)) == 0, patterns=[b2i(zeros(_k))], induct=("int", _k), inst=[[_k - 1]], no_auto=True,
       unfold_only=["b2i", "zeros"], uses=["zeros_len", "zeros_add"], use_inst=[("zeros_add", [_k - 1, z3.IntVal(1)])], depth=3)
 lemma("toks_nth", [_kb, _R, _n, _wv, _L2, _k, _k2],
-      Imp(And(0 <= _k2, _k2 < _k), toks(_kb, _R, _n, _wv, _L2, _k)[_k2] == prpv(_kb, _R, _n, _wv * pow2(_L2) + _k2 + 1)),
+      Imp(And(0 <= _k2, _k2 < _k), toks(_kb, _R, _n, _wv, _L2, _k)[_k2] == prpv(_kb, _R, _n, bcat(_wv, _L2, _k2 + 1))),
       patterns=None, induct=("int", _k), inst=[[_kb, _R, _n, _wv, _L2, _k - 1, _k2]], uses=["toks_len"], no_auto=True, unfold_only=["toks"])
 
 # congruence across an arithmetic equality: the key bytes i2b(value, (length + 7) // 8) of two Bitsets with provably equal value and
@@ -121,6 +121,11 @@ _x2, _a2, _b2 = z3.Ints("s2_x2 s2_a2 s2_b2")
 lemma("i2b_arg_cong", [_x, _x2, _a2, _b2], Imp(And(_x == _x2, _a2 == _b2), i2b(_x, (7 + _a2) / 8) == i2b(_x2, (7 + _b2) / 8)),
       patterns=[z3.MultiPattern(i2b(_x, (7 + _a2) / 8), i2b(_x2, (7 + _b2) / 8))], no_auto=True, unfold_only=[])
 
+_h1, _h2, _l1, _l2, _v1, _v2b = z3.Ints("s2_h1 s2_h2 s2_l1 s2_l2 s2_v1 s2_v2b")
+lemma("bcat_arg_cong", [_h1, _h2, _l1, _l2, _v1, _v2b], Imp(And(_h1 == _h2, _l1 == _l2, _v1 == _v2b), bcat(_h1, _l1, _v1) == bcat(_h2, _l2, _v2b)),
+      patterns=[z3.MultiPattern(bcat(_h1, _l1, _v1), bcat(_h2, _l2, _v2b))], no_auto=True, unfold_only=[])
+lemma("pow2_arg_cong", [_a2, _b2], Imp(_a2 == _b2, pow2(_a2) == pow2(_b2)), patterns=[z3.MultiPattern(pow2(_a2), pow2(_b2))],
+      no_auto=True, unfold_only=[])
 _kb2 = z3.Const("s2_kb2", BYTES)
 _n2, _v2 = z3.Ints("s2_n2 s2_v2")
 lemma("prpv_arg_cong", [_kb, _kb2, _R, _n, _n2, _v, _v2], Imp(And(_kb == _kb2, _n == _n2, _v == _v2), prpv(_kb, _R, _n, _v) == prpv(_kb2, _R, _n2, _v2)),
@@ -160,7 +165,7 @@ def _s2_inv(I, kb, R, ML, L2, DB, kidx, jcur):
     return z3.ForAll([x], _s2_body(x, I, kb, R, ML, L2, DB, kidx, jcur), patterns=[z3.Select(I, x)])
 
 
-def s2_inv_at(args_src, kidx_src, jcur_src, Iname="I"):
+def s2_inv_at(args_src, kidx_src, jcur_src, Iname="I", step_msg=None):
     """the invariant as a clause: assumed in its quantified form, proved for one arbitrary (fresh) position x"""
     def f(E, env):
         def ev(src):
@@ -178,7 +183,16 @@ def s2_inv_at(args_src, kidx_src, jcur_src, Iname="I"):
             n = E.fresh("arg_I", IT)
             E.assume(n.t == It)
             return SV(_s2_inv(n.t, kb, R, ML_, L2_, DBt, kidx, jcur), TBool)
+        if step_msg is not None and z3.is_store(It):
+            # proof steps for the entry just stored: its position is the PRP value of the intended message, hence decodes to it
+            key, Mv = It.arg(1), ev(step_msg)
+            E.oblige("stored_at_prp_value", key == prpv(kb, R, ML_, Mv), 0, "the position just written is pi(K1, message)")
+            E.oblige("stored_decodes", prpinv(kb, R, ML_, key) == Mv, 0, "... and decodes to that message")
         x0 = E.fresh("any_pos", TInt).t
+        # the message decoded from position x0 is the concatenation of its keyword part and its counter part
+        from pyvc.registry import LEMMAS as _LM
+        E.lemmas_used.add("bcat_divmod")
+        E.assume(z3.substitute(_LM["bcat_divmod"].body, *list(zip(_LM["bcat_divmod"].vars, [prpinv(kb, R, ML_, x0), L2_]))))
         return SV(_s2_body(x0, It, kb, R, ML_, L2_, DBt, kidx, jcur), TBool)
     return f
 
@@ -199,20 +213,20 @@ contract(SCH + "._Enc", params=dict(self=SCHT, K=KEYT, database=DBT), returns=ED
          ensures=["s2_repr(dmap(result.I), %s, database)" % CFG_ARGS],
          locals={"I": IT, "document_count_dict": TDict(TBytes, TInt)},
          lemmas=["PRP_inverse", "kw_inverse", "b2i_bound", "bitlen_le", "pow2_mono", "concat_fits", "concat_high", "concat_low", "b2i_zeros", "bitlen_ge", "zeros_len", "i2b_len", "b2i_nonneg", "bitlen_nonneg",
-                 "pow2_pos", "i2b_arg_cong", "prpv_arg_cong"],
+                 "pow2_pos", "i2b_arg_cong", "prpv_arg_cong", "pow2_arg_cong", "bcat_arg_cong"],
          only_lemmas=True, unfold_only=["s2_repr", "s2_inv", "s2_valid_db"],
          loops={0: dict(invariant=[s2_inv_at(ARGS_L, "it", "0"), "s_prime >= 0"]),
-                1: dict(invariant=[s2_inv_at(ARGS_L, "_it0", "it"), "s_prime >= 0"],
-                        hints=[("PRP_inverse", ARGS_L[:3] + ["b2i(keyword) * pow2(%s) + it + 1" % L2]),
+                1: dict(invariant=[s2_inv_at(ARGS_L, "_it0", "it", step_msg="bcat(b2i(keyword), %s, it)" % L2), "s_prime >= 0"],
+                        hints=[("PRP_inverse", ARGS_L[:3] + ["bcat(b2i(keyword), %s, it + 1)" % L2]),
                                ("pow2_mono", ["8 * len(keyword)", "self.config.param_l_bits"]),
                                ("bitlen_le", ["it + 1", L2]),
-                               ("concat_fits", ["b2i(keyword)", "it + 1", "self.config.param_l_bits", L2]),
-                               ("concat_high", ["b2i(keyword)", "it + 1", L2]), ("concat_low", ["b2i(keyword)", "it + 1", L2])]),
+                               ("bcat_fits", ["b2i(keyword)", "it + 1", "self.config.param_l_bits", L2]),
+                               ("bcat_high", ["b2i(keyword)", "it + 1", L2]), ("bcat_low", ["b2i(keyword)", "it + 1", L2])]),
                 2: dict(invariant=[s2_inv_at(ARGS_L, None, "0")]),
-                3: dict(invariant=[s2_inv_at(ARGS_L, None, "0")],
-                        hints=[("PRP_inverse", ARGS_L[:3] + ["n + it"]), ("bitlen_ge", ["n + it", L2]),
-                               ("concat_fits", ["0", "n + it", "self.config.param_l_bits", L2]),
-                               ("concat_high", ["0", "n + it", L2]), ("concat_low", ["0", "n + it", L2])])},
+                3: dict(invariant=[s2_inv_at(ARGS_L, None, "0", step_msg="bcat(0, %s, n + it - 1)" % L2)],
+                        hints=[("PRP_inverse", ARGS_L[:3] + ["bcat(0, %s, n + it)" % L2]), ("bitlen_ge", ["n + it", L2]),
+                               ("bcat_fits", ["0", "n + it", "self.config.param_l_bits", L2]),
+                               ("bcat_high", ["0", "n + it", L2]), ("bcat_low", ["0", "n + it", L2])])},
          no_runtime=True, props=["C01", "C02", "C04", "C07"])
 
 
@@ -230,8 +244,8 @@ contract(SCH + "._Search", params=dict(self=SCHT, edb=EDBT, tk=TOKT), returns=RE
                         hints=[("toks_nth", [GARGS.split(", ")[0] + ", " + GARGS.split(", ")[1] if False else "i2b(b2i(gK1), (self.config.param_k_bits + 7) // 8)",
                                              RR, ML, "b2i(gq)", L2, "self.config.param_n", "it"]),
                                ("pow2_mono", ["8 * len(gq)", "self.config.param_l_bits"]),
-                               ("concat_fits", ["b2i(gq)", "it + 1", "self.config.param_l_bits", L2]),
-                               ("concat_high", ["b2i(gq)", "it + 1", L2]), ("concat_low", ["b2i(gq)", "it + 1", L2])])},
+                               ("bcat_fits", ["b2i(gq)", "it + 1", "self.config.param_l_bits", L2]),
+                               ("bcat_high", ["b2i(gq)", "it + 1", L2]), ("bcat_low", ["b2i(gq)", "it + 1", L2])])},
          no_runtime=True, props=["C01", "C02", "C07"])
 
 contract(SCH + "._Gen", params=dict(self=SCHT), returns=KEYT,
